@@ -444,9 +444,27 @@ func runLayout(res *vutil.Result, name string, leds []string, tier string) {
 		})
 		w := &walker{res: res, layout: name, srv: srv, in: in, mi: mi, r: ref{held: map[string]int{}, ext: map[[2]int]bool{}},
 			octF: map[int]string{}, semF: map[int]string{}, mapF: map[int]string{}, chF: map[int]string{}, seen: map[string]bool{}}
+		// a note arrives on MIDI input while LED feedback is still being established (the connection takes its first
+		// 250 ms at least): it is still sounding when the first frame is drawn and must be shown there
+		early := srv.frames == 0
+		if early {
+			w.midiIn(midi.NoteEvent(midi.NoteOn, 5, 61, 90), "midi NoteOn ch6/61 (before LED feedback is up)")
+			w.r.ext[[2]int{5, 61}] = true
+		}
 		// wait for the LED loop to be up
 		for srv.frames < 1 {
 			vsched.SleepL(1e6, "wait-frame")
+		}
+		if early {
+			if f := w.frame(); true {
+				for i, l := range srv.leds {
+					if l.Name == ledName("KEY_S") && (f[i] == col(cBlack) || f[i] == col(cWhite) || f[i] == col(cC)) { // KEY_S plays 61 in the first mapping
+						w.violate("missing-highlight", "note-before-led-feedback", fmt.Sprintf("pitch 61 has been sounding on MIDI input (channel 6) since before LED feedback came up; LED %d (%s) shows the plain colour %v", i, l.Name, f[i]))
+					}
+				}
+			}
+			w.midiIn(midi.NoteEvent(midi.NoteOff, 5, 61, 0), "midi NoteOff ch6/61")
+			delete(w.r.ext, [2]int{5, 61})
 		}
 		// learn the channel colours from the channel_up LED if present, else from a probe (a key lit by another channel)
 		chanColor := map[int]openrgb.Color{}
